@@ -121,6 +121,341 @@ def protocol_statements(func):
     return out
 
 
+# --------------------------------------------------------------------------
+# round 4: the per-chunk argument tuples of the three master loops and the way the chunk
+# kernels subscript their parameters
+# --------------------------------------------------------------------------
+import re
+import textwrap
+
+KERNELS = {"arenas": ("py", "_mpi_nsi_arenas_betweenness"),
+           "newman": ("pyx", "_mpi_newman_betweenness"),
+           "nsinewman": ("pyx", "_mpi_nsi_newman_betweenness")}
+
+
+def norm(node):
+    return " ".join(ast.unparse(node).split())
+
+
+def strip_cast(node):
+    """to_cy(X, T) -> X"""
+    if isinstance(node, ast.Call) and ast.unparse(node.func) == "to_cy" and node.args:
+        return node.args[0]
+    return node
+
+
+def classify_value(node):
+    """(base, mode) of an expression handed to a chunk kernel"""
+    node = strip_cast(node)
+    txt = norm(node)
+    if txt == "None":
+        return ("None", "none")
+    m = re.fullmatch(r"(\w+)\[start_i:end_i(, :)?\]", txt)
+    if m:
+        return (m.group(1), "sliced")
+    if re.fullmatch(r"\w+", txt) or re.fullmatch(r"-?\d+", txt):
+        return (txt, "whole")
+    return (txt, "expr")
+
+
+def local_assignments(stmts, conds=()):
+    """name -> [(condition chain, value node)] for plain assignments to names in `stmts`
+    (descending into if/else, not into nested loops)"""
+    res = {}
+    for st in stmts:
+        if isinstance(st, ast.Assign) and len(st.targets) == 1 and isinstance(st.targets[0], ast.Name):
+            if isinstance(st.value, ast.IfExp):          # x = a if c else b
+                t = norm(st.value.test)
+                res.setdefault(st.targets[0].id, []).extend(
+                    [(" & ".join(conds + (t,)), st.value.body),
+                     (" & ".join(conds + ("not (" + t + ")",)), st.value.orelse)])
+            else:
+                res.setdefault(st.targets[0].id, []).append((" & ".join(conds), st.value))
+        elif isinstance(st, ast.If):
+            t = norm(st.test)
+            for k, v in local_assignments(st.body, conds + (t,)).items():
+                res.setdefault(k, []).extend(v)
+            for k, v in local_assignments(st.orelse, conds + ("not (" + t + ")",)).items():
+                res.setdefault(k, []).extend(v)
+    return res
+
+
+def resolve_args(arg_nodes, locals_):
+    """every positional argument as its list of alternatives (condition, base, mode)"""
+    out = []
+    for a in arg_nodes:
+        a = strip_cast(a)
+        txt = norm(a)
+        if txt in ("start_i", "end_i"):
+            out.append([("", txt, "start" if txt == "start_i" else "end")])
+        elif isinstance(a, ast.Name) and a.id in locals_:
+            out.append([(c,) + classify_value(v) for c, v in locals_[a.id]])
+        else:
+            out.append([("",) + classify_value(a)])
+    return out
+
+
+def find_parent_chain(func, target):
+    """list of ancestors of `target` inside `func` (outermost first)"""
+    chain = []
+
+    def rec(node, path):
+        if node is target:
+            chain.extend(path)
+            return True
+        for ch in ast.iter_child_nodes(node):
+            if rec(ch, path + [node]):
+                return True
+        return False
+    rec(func, [])
+    return chain
+
+
+def block_containing(parent, child_path):
+    """the statement list of `parent` that contains the next node of the path"""
+    for field in ("body", "orelse"):
+        blk = getattr(parent, field, None)
+        if isinstance(blk, list) and any(n in blk for n in child_path):
+            return blk
+    return []
+
+
+def master_call_tables(f, kname):
+    subs = [n for n in ast.walk(f) if isinstance(n, ast.Call) and ast.unparse(n.func) == "mpi.submit_call"]
+    dist_callee, dist_args = "<none>", []
+    if subs:
+        c = subs[0]
+        dist_callee = c.args[0].value if c.args and isinstance(c.args[0], ast.Constant) else norm(c.args[0])
+        chain = find_parent_chain(f, c)
+        loops = [n for n in chain if isinstance(n, ast.For)]
+        loc = local_assignments(loops[-1].body) if loops else {}
+        payload = c.args[1].elts if len(c.args) > 1 and isinstance(c.args[1], ast.Tuple) else []
+        dist_args = resolve_args(payload, loc)
+    serial = [n for n in ast.walk(f) if isinstance(n, ast.Call)
+              and ast.unparse(n.func).split(".")[-1] == kname]
+    serial_callee, serial_args, serial_conds = "<none>", [], []
+    if serial:
+        c = serial[0]
+        serial_callee = norm(c.func)
+        chain = find_parent_chain(f, c)
+        # the innermost `if` whose else-branch holds the call: its block supplies the locals
+        loc = {}
+        for i, n in enumerate(chain):
+            if isinstance(n, ast.If):
+                blk = block_containing(n, chain[i + 1:] + [c])
+                loc = local_assignments(blk)
+        serial_args = resolve_args(c.args, loc)
+        serial_conds = enclosing_ifs(f, lambda x: x is c)[0][0]
+    return dist_callee, dist_args, serial_callee, serial_args, serial_conds
+
+
+def pyx_kernel_as_python(src, kname):
+    """the body of a typed-buffer Cython kernel re-read as Python: parameter names from the
+    signature, the `int x = expr` initialisers of the cdef block as assignments, the
+    statements from the first `for` on verbatim"""
+    m = re.search(r"^def " + kname + r"\((.*?)\):\n", src, re.S | re.M)
+    if not m:
+        return [], None
+    depth, cur, parts = 0, "", []
+    for ch in m.group(1):
+        if ch in "[(":
+            depth += 1
+        if ch in "])":
+            depth -= 1
+        if ch == "," and depth == 0:
+            parts.append(cur)
+            cur = ""
+        else:
+            cur += ch
+    parts.append(cur)
+    params = [p.split()[-1] for p in parts if p.strip()]
+    rest = src[m.end():]
+    nxt = re.search(r"^(def |cdef |cpdef |# \w+ =====)", rest, re.M)
+    body = rest[:nxt.start()] if nxt else rest
+    lines = body.split("\n")
+    first_for = next(i for i, l in enumerate(lines) if re.match(r"    for ", l))
+    inits = []
+    head = "\n".join(lines[:first_for]).replace("\\\n", " ")
+    for l in head.split("\n"):
+        mm = re.match(r"\s+(?:int|double|ndarray\[[^\]]*\])\s+(\w+)\s*=\s*(.+)$", l)
+        if mm:
+            inits.append(f"    {mm.group(1)} = {' '.join(mm.group(2).split())}")
+    code = "def k(" + ", ".join(params) + "):\n" + "\n".join(inits + lines[first_for:]) + "\n"
+    return params, ast.parse(textwrap.dedent(code)).body[0]
+
+
+def kernel_tables(params, kfunc):
+    """loop header(s), subscripts of every parameter, guards, result writes, loop-carried
+    locals, return statement of a chunk kernel given as a Python AST"""
+    outer = None
+    pre = []
+    def find_loop(stmts):
+        nonlocal outer
+        for st in stmts:
+            if outer is not None:
+                return
+            if isinstance(st, ast.For):
+                outer = st
+                return
+            if isinstance(st, ast.Try):
+                find_loop(st.body)
+            elif isinstance(st, ast.Assign):
+                pre.append(norm(st))
+    find_loop(kfunc.body)
+    if outer is None:
+        return None
+    loop = ["for " + norm(outer.target) + " in " + norm(outer.iter)]
+    # index aliases defined at the top of the loop body from the loop variable (i_abs = ...)
+    for st in outer.body:
+        if isinstance(st, ast.Assign) and isinstance(st.targets[0], ast.Name) \
+                and re.fullmatch(r"i_\w+", st.targets[0].id):
+            loop.append(norm(st))
+    loop = [x for x in pre if x.startswith("this_N")] + loop
+    subs = {p: set() for p in params}
+    guards = {p: set() for p in params}
+
+    def visit(node, conds, in_sub_of=None):
+        if isinstance(node, ast.If):
+            t = norm(node.test)
+            visit(node.test, conds)
+            for b in node.body:
+                visit(b, conds + [t])
+            for b in node.orelse:
+                visit(b, conds + ["not (" + t + ")"])
+            return
+        if isinstance(node, ast.Subscript) and isinstance(node.value, ast.Name) and node.value.id in subs:
+            sl = node.slice
+            first = sl.elts[0] if isinstance(sl, ast.Tuple) else sl
+            subs[node.value.id].add(norm(first))
+            guards[node.value.id].add(" & ".join(conds))
+            visit(node.slice, conds)
+            return
+        if isinstance(node, ast.Name) and node.id in subs:
+            subs[node.id].add("<whole>")
+            guards[node.id].add(" & ".join(conds))
+            return
+        for ch in ast.iter_child_nodes(node):
+            visit(ch, conds)
+    for st in outer.body:
+        visit(st, [])
+    # result variable = first element of the returned / stored tuple
+    ret = "<none>"
+    resvar = None
+    for n in ast.walk(kfunc):
+        if isinstance(n, ast.Return) and isinstance(n.value, ast.Tuple) and ret == "<none>" \
+                and len(n.value.elts) == 3:
+            ret, resvar = "return " + norm(n.value), norm(n.value.elts[0])
+        if isinstance(n, ast.Assign) and norm(n.targets[0]) == "result" and isinstance(n.value, ast.Tuple):
+            ret, resvar = norm(n), norm(n.value.elts[0])
+    outs = []
+    for n in ast.walk(outer):
+        if isinstance(n, (ast.Assign, ast.AugAssign)):
+            tgt = n.targets[0] if isinstance(n, ast.Assign) else n.target
+            base = tgt.value.id if isinstance(tgt, ast.Subscript) and isinstance(tgt.value, ast.Name) \
+                else (tgt.id if isinstance(tgt, ast.Name) else None)
+            if base == resvar:
+                op = "=" if isinstance(n, ast.Assign) else \
+                    {ast.Add: "+="}.get(type(n.op), "?=")
+                outs.append(norm(tgt) + " " + op)
+    # loop-carried locals: read in an iteration before being assigned in it
+    assigned = set()
+    for n in ast.walk(outer):
+        if isinstance(n, ast.Name) and isinstance(n.ctx, ast.Store):
+            assigned.add(n.id)
+    bound_in_comp = set()
+    for n in ast.walk(outer):
+        if isinstance(n, ast.comprehension):
+            for x in ast.walk(n.target):
+                if isinstance(x, ast.Name):
+                    bound_in_comp.add(x.id)
+    carried = set()
+
+    def reads(node, defined):
+        for x in ast.walk(node):
+            if isinstance(x, ast.Name) and isinstance(x.ctx, ast.Load) and x.id in assigned \
+                    and x.id not in defined and x.id not in bound_in_comp:
+                carried.add(x.id)
+
+    def flow(stmts, defined):
+        defined = set(defined)
+        for st in stmts:
+            if isinstance(st, ast.Assign):
+                reads(st.value, defined)
+                for t in st.targets:
+                    if isinstance(t, ast.Name):
+                        defined.add(t.id)
+                    elif isinstance(t, ast.Tuple):
+                        defined.update(e.id for e in t.elts if isinstance(e, ast.Name))
+                    else:
+                        reads(t, defined)
+            elif isinstance(st, ast.AugAssign):
+                reads(st.value, defined)
+                if isinstance(st.target, ast.Name):
+                    if st.target.id not in defined:
+                        carried.add(st.target.id)
+                else:
+                    reads(st.target, defined)
+            elif isinstance(st, ast.If):
+                reads(st.test, defined)
+                a = flow(st.body, defined)
+                b = flow(st.orelse, defined)
+                defined = a & b
+            elif isinstance(st, ast.For):
+                reads(st.iter, defined)
+                inner = set(defined)
+                inner.update(x.id for x in ast.walk(st.target) if isinstance(x, ast.Name))
+                flow(st.body, inner)          # may run zero times: nothing new is defined after
+            else:
+                reads(st, defined)
+        return defined
+    flow(outer.body, {x.id for x in ast.walk(outer.target) if isinstance(x, ast.Name)})
+    init = [x for x in pre if resvar and x.startswith(resvar + " = ")]
+    return {"init": init, "loop": loop, "subs": {p: sorted(v) for p, v in subs.items()},
+            "guards": {p: sorted(v) for p, v in guards.items()}, "out": outs, "ret": ret,
+            "carried": sorted(carried - {resvar.split("[")[0] if resvar else ""}),
+            "resvar": resvar or "<none>"}
+
+
+def triples(alts):
+    return "[" + ", ".join("(" + ", ".join(lit(x) for x in t) + ")" for t in alts) + "]"
+
+
+def emit_chunk_tables(out, cls, src_dir):
+    pyx = open(os.path.join(src_dir, "core/_ext/numerics.pyx")).read()
+    for short, name in METHODS:
+        f = [n for n in cls.body if isinstance(n, ast.FunctionDef) and n.name == name][0]
+        kind, kname = KERNELS[short]
+        if kind == "py":
+            kf = [n for n in cls.body if isinstance(n, ast.FunctionDef) and n.name == kname]
+            params = [a.arg for a in kf[0].args.args] if kf else []
+            kt = kernel_tables(params, kf[0]) if kf else None
+        else:
+            params, kfn = pyx_kernel_as_python(pyx, kname)
+            kt = kernel_tables(params, kfn) if kfn is not None else None
+        if kt is None:
+            kt = {"init": [], "loop": ["<no loop>"], "subs": {}, "guards": {}, "out": [], "ret": "<none>",
+                  "carried": ["<unknown>"], "resvar": "<none>"}
+        dc, da, sc, sa, sconds = master_call_tables(f, kname)
+        out.append(f"def {short}_kernel_params : List String := [{', '.join(lit(p) for p in params)}]")
+        out.append(f"def {short}_kernel_loop : List String := [{', '.join(lit(p) for p in kt['loop'])}]")
+        out.append(f"def {short}_kernel_subs : List (String × List String) := [" + ", ".join(
+            f"({lit(p)}, [{', '.join(lit(x) for x in kt['subs'].get(p, []))}])" for p in params) + "]")
+        out.append(f"def {short}_kernel_guards : List (String × List String) := [" + ", ".join(
+            f"({lit(p)}, [{', '.join(lit(x) for x in kt['guards'].get(p, []))}])" for p in params) + "]")
+        out.append(f"def {short}_kernel_init : List String := [{', '.join(lit(p) for p in kt['init'])}]")
+        out.append(f"def {short}_kernel_out : List String := [{', '.join(lit(p) for p in kt['out'])}]")
+        out.append(f"def {short}_kernel_return : String := {lit(kt['ret'])}")
+        out.append(f"def {short}_kernel_carried : List String := [{', '.join(lit(p) for p in kt['carried'])}]")
+        out.append(f"def {short}_dist_callee : String := {lit(dc)}")
+        out.append(f"def {short}_serial_callee : String := {lit(sc)}")
+        out.append(f"def {short}_serial_conditions : List String := [{', '.join(lit(c) for c in sconds)}]")
+        out.append(f"def {short}_dist_args : List (List (String × String × String)) := [" +
+                   ", ".join(triples(a) for a in da) + "]")
+        out.append(f"def {short}_serial_args : List (List (String × String × String)) := [" +
+                   ", ".join(triples(a) for a in sa) + "]")
+        out.append("")
+
+
 def main():
     src = open(os.path.join(REPO, "src/pyunicorn/core/network.py")).read()
     tree = ast.parse(src)
@@ -150,6 +485,8 @@ def main():
         out.append(f"def {short}_n_submit_sites : Nat := {len(subs)}")
         out.append(f"def {short}_assembly : String := {lit(asm)}")
         out.append("")
+    # ---- round 4: per-chunk argument tuples and kernel subscripts -----------------------
+    emit_chunk_tables(out, cls, os.path.join(REPO, "src/pyunicorn"))
     # ---- multiprocessing split of `targets` in Network._nsi_betweenness ----------------
     f = [n for n in cls.body if isinstance(n, ast.FunctionDef) and n.name == "_nsi_betweenness"][0]
     split_call, map_call, reduce_call, serial_call, pool_ctor = "<none>", "<none>", "<none>", "<none>", "<none>"
